@@ -301,7 +301,9 @@ func (n *cnet) stalled(window time.Duration) (bool, string) {
 		}
 		for i := 0; i < 2; i++ {
 			_, hs := n.end(i).ch.VerifTimers()
-			if hs {
+			// a timer whose callback is executing reads as not pending, yet the channel is about to act (a callback can be
+			// slow to get the processor on a loaded machine)
+			if hs || n.end(i).ch.VerifTimerCallbackRunning() {
 				return false, ""
 			}
 		}
